@@ -110,6 +110,18 @@ CHECKS = {
   "note": COMMON_NOTE + "Modelled not verified: the URL parser and the regex engine are oracles (the normaliser's own shape guarantees are "
           "C09's); archive() is replaced by scripted answers at this level and runs for real only in the end-to-end scenarios.",
  },
+ "C08": {
+  "text": "Theorems over the stage model for every store content, tree and node list: a node whose URL the local store holds is marked "
+          "seen (except a seed / redirect target recorded only as an asset); a node is marked seen only if its URL was in the store when "
+          "looked up; the store only grows and never downgrades a seed record; nodes marked seen get no request; for crawl HQ the value "
+          "sent is the value compared, HQ answers exactly with unrecorded values, so a node is skipped iff HQ had recorded it; one node "
+          "per URL after dedupe. Jobs of several seeds with overlapping URLs (assets, redirect targets, seeds; multi-parameter and oddly "
+          "encoded queries) run through the real stages with the real LevelDB store or a recording fake HQ; each node reaching the check "
+          "is judged by a reference set written from the property text and each step is replayed on the model.",
+  "note": COMMON_NOTE + "LevelDB and crawl HQ are oracles (read-your-writes); FNV-64a collisions ignored. Concurrent checks of the same URL "
+          "from different workers are not modelled (the property only asks that a record completed before a check started is honoured, "
+          "which the sequential model covers).",
+ },
  "C06": {
   "text": "Theorems over the stage model for every node, configuration and extractor result: a redirect is followed only below "
           "--max-redirect and its target carries one more redirect and the page's hops; beyond depth 2 (domains-crawl off) nothing is "
